@@ -6,6 +6,7 @@
 package space
 
 import (
+	"crypto/sha256"
 	"runtime"
 	"sync"
 	"sync/atomic"
@@ -22,6 +23,8 @@ type Config struct {
 	MaxStates int
 	Deadline  time.Time
 	Progress  func(depth, states, transitions, frontier int)
+	// Stop is polled between states; returning true ends the search (e.g. enough violations found).
+	Stop func() bool
 }
 
 type Stats struct {
@@ -43,10 +46,17 @@ func Explore(cfg Config, run func(hist []int) (key string, ok bool, terminal boo
 		cfg.Workers = runtime.NumCPU()
 	}
 	var st Stats
-	seen := map[string]struct{}{}
+	var stopped atomic.Bool
+	seen := map[[16]byte]struct{}{}
+	hk := func(k string) [16]byte {
+		d := sha256.Sum256([]byte(k))
+		var o [16]byte
+		copy(o[:], d[:16])
+		return o
+	}
 	var mu sync.Mutex
 	k0, _, _ := run(nil)
-	seen[k0] = struct{}{}
+	seen[hk(k0)] = struct{}{}
 	st.States = 1
 	frontier := [][]int{{}}
 	depth := 0
@@ -75,6 +85,10 @@ func Explore(cfg Config, run func(hist []int) (key string, ok bool, terminal boo
 					if i >= len(frontier) {
 						return
 					}
+					if cfg.Stop != nil && cfg.Stop() {
+						stopped.Store(true)
+						return
+					}
 					hist := frontier[i]
 					n := cfg.NumOps(hist)
 					for op := 0; op < n; op++ {
@@ -87,9 +101,10 @@ func Explore(cfg Config, run func(hist []int) (key string, ok bool, terminal boo
 							atomic.AddInt64(&st.Pruned, 1)
 							continue
 						}
+						kh := hk(key)
 						mu.Lock()
-						if _, dup := seen[key]; !dup {
-							seen[key] = struct{}{}
+						if _, dup := seen[kh]; !dup {
+							seen[kh] = struct{}{}
 							st.States++
 							if !term {
 								next = append(next, nh)
@@ -104,6 +119,10 @@ func Explore(cfg Config, run func(hist []int) (key string, ok bool, terminal boo
 			}()
 		}
 		wg.Wait()
+		if stopped.Load() {
+			st.Capped = "stopped by caller (violations found)"
+			break
+		}
 		if cfg.Progress != nil {
 			cfg.Progress(depth+1, int(st.States), int(st.Transitions), len(next))
 		}
